@@ -398,7 +398,7 @@ def gen_ents(r: Rng, comma: bool, nbrush: int):
         if r.chance(0.5):
             e['targetname'] = r.pick(['relay', 'door', 'a b', 'quote"d', 'back\\slash', 'multi\nline'])
         if r.chance(0.3):
-            e['message'] = r.pick(['a,b', 'x, y, z', 'one,two,three,four,five', 'tab\there', '1,2,3,4,5,6', 'relay,Trigger,,0,-1,9', 'a,b,c,1,2'])
+            e['message'] = r.pick(['a,b', 'x, y, z', 'one,two,three,four,five', 'tab\there', '1,2,3,4,5,6', 'relay,Trigger,,0,-1,9'])
         for _ in range(r.randrange(0, 3)):
             e.add_out(Output(r.pick(['OnTrigger', 'OnUser1']), r.pick(['relay', '!self', 'door']), r.pick(['Trigger', 'Kill']),
                              r.pick(['', '1', 'a b']), f32(r.pick([0.0, 1.0, 0.5, 2.25])), times=r.pick([-1, 1]), comma_sep=comma))
